@@ -55,7 +55,8 @@ def sop? : Sexp → Option SOp
     let sends ← sends.mapM sresp?
     let recvs ← recvs.mapM rresp?
     let hs ← hs.mapM hresp?
-    some (.conn ⟨ca, sends, recvs, hs⟩)
+    some (.conn ⟨ca, sends, recvs, hs, false⟩)
+  | .list [.atom "dconn", ca] => do some (.conn ⟨← nat? ca, [], [], [], true⟩)
   | .list [.atom "svc"] => some .svc
   | .list [.atom "tx", ca, d] => do some (.tx (← nat? ca) (← bytes? d))
   | .list [.atom "rm", ca] => do some (.rm (← nat? ca))
